@@ -4,8 +4,12 @@ Meta-process state-word protocol (node/meta.go `start`, `handle`; node/process.g
 RouteSendAlias meta branch). Counting abstraction as in Model/Proc.lean.
 
 The `Start` callback runs in its own goroutine for the whole life of the meta-process, concurrently with the mailbox
-handler goroutine — by design. When `Start` returns, that goroutine swaps the word to `terminated` and, if it was
-the first to do so, runs `Terminate`.
+handler goroutine — by design. When `Start` returns, that goroutine swaps the word to `terminated`; what happens then
+depends on the code shape `ho` (regenerated as Gen.Meta.startHandsOff):
+  ho    : if the word was `running` (a handler goroutine owns it, possibly inside a callback) the termination is left
+          to that goroutine, which runs it when it is done (its own termination path, or its CAS running→sleep failing);
+          otherwise the start goroutine runs `Terminate` itself;
+  ¬ho   : (the code before the repair of D22) whoever swaps first runs `Terminate`, at once.
 -/
 namespace ErgoVerif.Meta
 
@@ -31,6 +35,7 @@ structure Cfg where
   mail : Nat
   handled : Nat
   terms : Nat
+  pend : Nat  -- Start is over and has left the termination to the handler goroutine, which has not run it yet
 deriving Repr
 
 inductive Lbl
@@ -41,14 +46,17 @@ inductive Lbl
   | termDoneS | termDoneH
 deriving DecidableEq, Repr
 
-def init : Cfg := ⟨.zero, 1, 0, 0, 0, 0, 0, 0, 0, 0, 0, 0, 0, 0, 0, 0, 0, 0⟩
+def init : Cfg := ⟨.zero, 1, 0, 0, 0, 0, 0, 0, 0, 0, 0, 0, 0, 0, 0, 0, 0, 0, 0⟩
 
-def step (c : Cfg) : Lbl → Option Cfg
+def step (ho : Bool) (c : Cfg) : Lbl → Option Cfg
   -- start(): store sleep, `go m.handle()` (a waker), then the Start callback
   | .storeSleep => if c.a0 = 0 then none else some { c with a0 := c.a0 - 1, a1 := c.a1 + 1, st := .sleep, h0 := c.h0 + 1 }
   | .startRet => if c.a1 = 0 then none else some { c with a1 := c.a1 - 1, a2 := c.a2 + 1 }
   | .swapStart => if c.a2 = 0 then none else
       if c.st = .terminated then some { c with a2 := c.a2 - 1 }
+      else if ho then
+        (if c.st = .running then some { c with a2 := c.a2 - 1, st := .terminated, pend := c.pend + 1 }
+         else some { c with a2 := c.a2 - 1, st := .terminated, tmS := c.tmS + 1, terms := c.terms + 1 })
       else some { c with a2 := c.a2 - 1, st := .terminated, tmS := c.tmS + 1, terms := c.terms + 1 }
   -- senders: push then handle()
   | .newSender => some { c with s1 := c.s1 + 1 }
@@ -67,10 +75,12 @@ def step (c : Cfg) : Lbl → Option Cfg
       else some { c with rb := c.rb - 1, r3 := c.r3 + 1 }
   | .retReason => if c.rb = 0 then none else some { c with rb := c.rb - 1, rE := c.rE + 1 }
   | .swapHandler => if c.rE = 0 then none else
-      if c.st = .terminated then some { c with rE := c.rE - 1 }
+      if ho then some { c with rE := c.rE - 1, st := .terminated, tmH := c.tmH + 1, terms := c.terms + 1, pend := 0 }
+      else if c.st = .terminated then some { c with rE := c.rE - 1 }
       else some { c with rE := c.rE - 1, st := .terminated, tmH := c.tmH + 1, terms := c.terms + 1 }
   | .casSleep => if c.r3 = 0 then none else
       if c.st = .running then some { c with r3 := c.r3 - 1, r4 := c.r4 + 1, st := .sleep }
+      else if ho then some { c with r3 := c.r3 - 1, tmH := c.tmH + 1, terms := c.terms + 1, pend := 0 }
       else some { c with r3 := c.r3 - 1 }
   | .recheckEmpty => if c.r4 = 0 then none else if c.mail = 0 then some { c with r4 := c.r4 - 1 } else none
   | .recheckSome => if c.r4 = 0 then none else if c.mail = 0 then none else some { c with r4 := c.r4 - 1, r5 := c.r5 + 1 }
@@ -80,7 +90,7 @@ def step (c : Cfg) : Lbl → Option Cfg
   | .termDoneS => if c.tmS = 0 then none else some { c with tmS := c.tmS - 1 }
   | .termDoneH => if c.tmH = 0 then none else some { c with tmH := c.tmH - 1 }
 
-def Reach (c : Cfg) : Prop := ∃ ls, run step init ls = some c
+def Reach (ho : Bool) (c : Cfg) : Prop := ∃ ls, run (step ho) init ls = some c
 
 def stCode : St → Nat | .zero => 0 | .sleep => 1 | .running => 2 | .terminated => 4
 
